@@ -19,6 +19,11 @@ CHECKS = {
    text="Every sequence of create/delete role, create/delete policy, attach, assign/unassign (directly or inside multi-op transactions that commit or abort) up to the depth bound, from the empty and from a seeded configuration; after every step every request in {2 subjects, unknown subject} x {retrieve, delete} x object lists of length 1-2 (covered by type, by identity, same key under another type, key extending a covered key, uncovered) is enforced in the committed view and inside the open transaction and compared with the reference in both directions; RetrievePoliciesForSubject equals the model as a set.",
    note="memkv storage; go1.26.8 toolchain; an accepted attach/assign of a missing role or policy is taken at its word (recorded, grants nothing until both ends exist); depth-bounded, not a fixpoint.",
    design="3/C18"),
+ "C03": dict(level="model_checking", engine="seqx",
+   technique="explicit-state BFS over the real domain.DB (writers, commits, deletes, reopen) with an interval reference model; invariants on the real pointer list after every step",
+   text="Every sequence of open-writer(start, optional preset end incl. adjacent and zero-length) / write+commit(end) / re-commit / close / delete[a,b) / reopen over 2-3 writers on one channel with timestamps from a 4-5 point grid, with and without file rollover and with lazy and immediate index persistence, from the empty database and from a two-domain layout, up to the depth bound. After every step the real pointer list (verif hook) and the iterator enumeration must be sorted, pairwise non-overlapping, inside their files and equal to the model with byte-identical content; an open inside data must fail; a commit that overlaps, moves backwards or is empty must fail with a validation error and leave the index untouched; an accepted commit must satisfy none of those.",
+   note="in-memory xfs.MemFS; go1.26.8 toolchain; file rollover is observed (Writer.Start) rather than predicted; domain-level deletes are only issued on ranges no open writer has committed into (cesium's controller enforces that above this layer); legal commits that the code refuses are counted, not judged.",
+   design="3/C03"),
 }
 NOT_YET = {}
 props = [json.loads(l) for l in open(os.path.join(HERE, "properties.jsonl"))]
